@@ -18,8 +18,7 @@
   additionally cloning reachable worlds, `clone_from` between reachable worlds, and deserializing
   *arbitrary* token streams.
 -/
-import BroodModel.Lemmas.CloneFrom
-import BroodModel.Lemmas.DeInv
+import BroodModel.Lemmas.Reach
 
 namespace Brood
 
@@ -35,29 +34,10 @@ theorem C13_inv_partial (n : Nat) (res : List Val) (ops : List Op) {w : World}
     (e : run (World.init n res) ops = .ok w) : Inv w :=
   run_inv (inv_init n res) ops e
 
-/-- Worlds reachable through the public API: from the empty world by single-world operations, by
-cloning a reachable world, or as the result of deserializing any token stream whatsoever. -/
-inductive Reachable : World → Prop
-  | init (n : Nat) (res : List Val) : Reachable (World.init n res)
-  | step {w w' : World} (op : Op) : Reachable w → step w op = .ok w' → Reachable w'
-  | clone {w w' : World} (e next : Nat) : Reachable w → w.clone e next = .ok w' → Reachable w'
-  | cloneFrom {d s fin : World} {drops : List Val} (e : Nat) : Reachable d → Reachable s → d.n = s.n →
-      World.cloneFrom d s e = .ok (fin, drops) → Reachable fin
-  | deserialize {k : Kinds} {hr : Bool} {n nres e next : Nat} {toks : List Serde.Tok} {w : World} :
-      Serde.deserialize k hr n nres e next toks = .ok w → Reachable w
-
-/-- **Every reachable world satisfies the invariant** — every public operation, any history. -/
-theorem C13_inv_reachable {w : World} (h : Reachable w) : Inv w := by
-  induction h with
-  | init n res => exact inv_init n res
-  | step op _ e ih => exact step_inv ih e
-  | clone e next _ hc ih =>
-    obtain ⟨w'', h1, h2, _⟩ := clone_spec ih e next
-    rw [h1] at hc; cases hc; exact h2
-  | cloneFrom e _ _ hn hc ihd ihs =>
-    obtain ⟨fin', drops', h1, h2, _⟩ := cloneFrom_spec ihd ihs hn e
-    rw [h1] at hc; cases hc; exact h2
-  | deserialize hd => exact Serde.deserialize_inv hd
+/-- **Every reachable world satisfies the invariant** — every public operation, any history over
+any number of worlds (`Reachable`, Lemmas/Reach.lean: single-world operations, `clone`,
+`clone_from`, deserialization of arbitrary token streams). -/
+theorem C13_inv_reachable {w : World} (h : Reachable w) : Inv w := reachable_inv h
 
 /-- Identifiers accepted = identifiers stored: a live identifier resolves to a row holding it… -/
 theorem C13_accepted_is_stored {w : World} (hi : Inv w) {id : Ident} {l : Loc}
